@@ -3,7 +3,7 @@
 # Meant for `vp run -- ./soak.sh 1 2 3` (a snapshot builds its own harness and Lean project first).
 ./check --setup || exit 1
 for seed in "${@:-1}"; do
-  for p in C01 C02 C03 C04 C05 C06 C07 C08 C09 C10 C11 C12 C13 C14 C15 C16 C17 C18 C19 C20 M13 M14 M15; do
+  for p in C01 C02 C03 C04 C05 C06 C07 C08 C09 C10 C11 C12 C13 C14 C15 C16 C17 C18 C19 C20 M13 M14 M15 M16 M17; do
     VERIF_SEED=$seed ./check $p --tier thorough > soak.$p.$seed.out 2> soak.$p.$seed.err
     echo "$p seed=$seed rc=$? $(grep -c VIOLATION soak.$p.$seed.out) violation line(s): $(grep VIOLATION soak.$p.$seed.out | head -3 | tr '\n' ' ')"
   done
